@@ -5,12 +5,15 @@ from common import *
 from gen import *
 from sessions import *
 
-CLASSES = {"a": "a", "s": " ", "q": '"', "b": "\\", "t": "~", "l": "é", "w": "中", "x": "\U0001F600", "c": "́", "f": "ａ"}
+CLASSES = {"a": "a", "s": " ", "q": '"', "b": "\\", "t": "~", "l": "é", "w": "中", "x": "\U0001F600", "c": "́", "f": "ａ", "z": "\u200d"}
 POOLS = {
     "a": "abcxyzABCXYZ0123456789_", "s": " ", "q": "\"'`", "b": "\\/|", "t": "~!@#$%^&*(){}[]<>?;:,.-=+",
     "l": "éèüñçßøåÆÐþÿ¡¿«»°±", "w": "中文日本語한국어テスト你好世界", "x": "\U0001F600\U0001F680\U0001F4A9\U0001D11E\U00020000\U0001F1EB",
     "c": "̧́̀̈⃗",
 }
+# characters without a glyph of their own that are part of what people type: joiners (emoji families, Persian, Indic), soft
+# hyphen, direction marks, variation selectors, tag characters of flag emoji, private-use glyphs (icon fonts)
+POOLS["z"] = "\u200d\u200c\u00ad\u200e\u200f\ufe0f\u2060\U000e0067\U000e007f\ue0b0\U000f0001\u061c"
 META_VARS = ["convert-meta", "input-meta", "output-meta", "enable-meta-key"]
 
 
